@@ -146,13 +146,20 @@ func c11GenData(r *core.Rand) []byte {
 }
 
 func c11GenOps(r *core.Rand, ctx string, depth int, allowCmd bool) []c11Op {
+	return c11GenOpsL(r, ctx, depth, allowCmd, false)
+}
+
+func c11GenOpsL(r *core.Rand, ctx string, depth int, allowCmd, inLoop bool) []c11Op {
 	n := r.Range(0, 4)
 	if depth == 0 {
 		n = r.Range(1, 6)
 	}
 	var ops []c11Op
 	for i := 0; i < n; i++ {
-		kinds := []string{"trace", "trace", "getline", "getline-var", "getline-file", "getline-var-file", "exit", "exit-n", "assign", "if-nr", "if-v", "loop", "call", "trace"}
+		kinds := []string{"trace", "trace", "getline", "getline-var", "getline-file", "getline-var-file", "exit", "exit-n", "assign", "if-nr", "if-v", "loop", "call", "trace", "dowhile", "forever"}
+		if inLoop {
+			kinds = append(kinds, "break-if-v", "break-if-v")
+		}
 		if ctx == "rule" || depth > 0 && ctx == "rulefn" {
 			kinds = append(kinds, "next", "nextfile", "next")
 		}
@@ -177,7 +184,9 @@ func c11GenOps(r *core.Rand, ctx string, depth int, allowCmd bool) []c11Op {
 			op.K = r.Range(0, 9)
 		case "assign":
 			op.K = r.Range(0, 9)
-		case "if-nr", "if-v", "loop", "call":
+		case "break-if-v":
+			op.K = r.Range(0, 9)
+		case "if-nr", "if-v", "loop", "call", "dowhile", "forever":
 			if depth >= 2 {
 				op.Kind = "trace"
 				op.K = r.Intn(1000)
@@ -185,10 +194,12 @@ func c11GenOps(r *core.Rand, ctx string, depth int, allowCmd bool) []c11Op {
 			}
 			op.K = r.Range(1, 3)
 			sub := ctx
+			subLoop := inLoop || op.Kind == "loop" || op.Kind == "dowhile" || op.Kind == "forever"
 			if op.Kind == "call" {
 				sub = "fn"
+				subLoop = false // break cannot leave a function
 			}
-			op.Sub = c11GenOps(r, sub, depth+1, allowCmd)
+			op.Sub = c11GenOpsL(r, sub, depth+1, allowCmd, subLoop)
 		case "argv-set":
 			op.K = r.Range(1, 4)
 			// ("-" is not assigned at run time: a second "-" operand would put a second buffered
@@ -253,9 +264,36 @@ func c11GenLong(r *core.Rand) *c11Scn {
 	return sc
 }
 
+// c11GenManyRules draws a program with more than 64 pattern-action rules, ranges among the last.
+func c11GenManyRules(r *core.Rand) *c11Scn {
+	sc := &c11Scn{}
+	n := r.Range(66, 90)
+	for k := 0; k < n; k++ {
+		rule := c11Rule{Pat: c11Pat{Kind: "nr", K: 99}, Body: []c11Op{{Kind: "trace", K: k}}}
+		if k >= 60 && r.Chance(1, 2) {
+			rule = c11Rule{Pat: c11Pat{Kind: "nr", K: r.Range(1, 3)}, Range: true, Pat2: c11GenPat(r), Body: []c11Op{{Kind: "trace", K: k}}}
+			if rule.Pat2.Kind == "" {
+				rule.Pat2 = c11Pat{Kind: "fnr", K: r.Range(2, 4)}
+			}
+		}
+		sc.Rules = append(sc.Rules, rule)
+	}
+	for _, name := range []string{"f1", "f2", "f3", "g1", "g2"} {
+		data := c11GenData(r)
+		sc.Files = append(sc.Files, c11File{Name: name, Data: data, D: genDelivery(r, len(data))})
+	}
+	sc.Args = []string{"f1", "f2"}
+	sc.HasEnd = true
+	sc.End = []c11Op{{Kind: "trace", K: 999}}
+	return sc
+}
+
 func (c11Engine) Gen(r *core.Rand, tier string, i int) any {
 	if r.Chance(1, 40) {
 		return c11GenLong(r)
+	}
+	if r.Chance(1, 60) {
+		return c11GenManyRules(r)
 	}
 	sc := &c11Scn{}
 	allowCmd := r.Chance(1, 25)
@@ -375,6 +413,12 @@ func (g *c11Gen) ops(ops []c11Op) string {
 			fmt.Fprintf(&sb, "if (v == %d) { %s} ", op.K, g.ops(op.Sub))
 		case "loop":
 			fmt.Fprintf(&sb, "for (i%d = 0; i%d < %d; i%d++) { %s} ", id, id, op.K, id, g.ops(op.Sub))
+		case "dowhile":
+			fmt.Fprintf(&sb, "do { %s} while (0); ", g.ops(op.Sub))
+		case "forever":
+			fmt.Fprintf(&sb, "for (;;) { %sbreak; } ", g.ops(op.Sub))
+		case "break-if-v":
+			fmt.Fprintf(&sb, "if (v == %d) break; ", op.K)
 		case "call":
 			g.funcs = append(g.funcs, fmt.Sprintf("function fn%d() { %s}", id, g.ops(op.Sub)))
 			fmt.Fprintf(&sb, "fn%d(); ", id)
@@ -471,6 +515,7 @@ type c11Signal int
 
 const (
 	sigNone c11Signal = iota
+	sigBreak
 	sigNext
 	sigNextfile
 	sigExit
@@ -679,7 +724,11 @@ func (m *c11Model) run(ops []c11Op) c11Signal {
 			base := m.n
 			for i := 0; i < op.K; i++ {
 				m.n = base
-				if sig := m.run(op.Sub); sig != sigNone {
+				sig := m.run(op.Sub)
+				if sig == sigBreak {
+					break
+				}
+				if sig != sigNone {
 					return sig
 				}
 			}
@@ -687,6 +736,17 @@ func (m *c11Model) run(ops []c11Op) c11Signal {
 		case "call":
 			if sig := m.run(op.Sub); sig != sigNone {
 				return sig
+			}
+		case "dowhile", "forever":
+			// the body runs once (forever ends with a break); a break inside leaves the loop early
+			base := m.n
+			if sig := m.run(op.Sub); sig != sigNone && sig != sigBreak {
+				return sig
+			}
+			m.n = base + c11Count(op.Sub)
+		case "break-if-v":
+			if c11NumEq(m.v, op.K) {
+				return sigBreak
 			}
 		case "argv-set":
 			m.argv[op.K] = op.Name
